@@ -367,7 +367,7 @@ func runC06(c *Ctx) {
 		{nm, anm, map[string]string{}},
 		{w.NextFrame, w.AsyncNextFrame, map[string]string{
 			"store state=5": "the blocking variant stores Terminated when the inner read returns EOF, the asynchronous one when the flush fails / the stream cannot be read; both are terminations",
-			"var EOF":        "the blocking variant re-checks io.EOF from nextFrame",
+			"var EOF":       "the blocking variant re-checks io.EOF from nextFrame",
 		}},
 		{w.nextFrame, w.asyncNextFrame, map[string]string{}},
 	}
